@@ -122,6 +122,19 @@ func (rs *regScript) issue(p *Peer, hot *LFeat) *regIssued {
 		desc = "delete"
 		omit = w.T.Bool(1, 4, "delete-omit-device")
 	}
+	if kind == add && w.T.Bool(1, 6, "requested-type-differs") {
+		// the requested server feature type is not the type of the two features: the generic type
+		// (only a feature may be generic, the requested type is no wildcard) or some other type
+		if w.T.Bool(1, 2, "requested-type-generic") {
+			ft = model.FeatureTypeTypeGeneric
+		} else {
+			ft = allFeatureTypes[w.T.Choose(len(allFeatureTypes), "requested-type")]
+		}
+		if ft != sf.Type {
+			desc += "+requested-type-" + string(ft)
+			w.Probe("reg-requested-type-differs")
+		}
+	}
 	ri := &regIssued{peer: p}
 	ca := cf.Address()
 	if shape == 6 && w.T.Bool(1, 2, "unknown-client-instead") {
